@@ -5,7 +5,9 @@
    Data model:  int -> Z        bool -> bool        str -> string        tuple / list -> list
                 set -> list (the list order is the iteration order; membership is all a set operation may look at)
                 dict literal -> association list        exception -> Raise e        loop exit -> flow
-   Whatever is not listed here has no translation: the translator fails closed. *)
+   Whatever is not listed here has no translation: the translator fails closed.
+   Round 2 (below the line "round 2"): dicts as VALUES (association lists without duplicate keys), defaultdict(set), range, max,
+   OrderedDict.move_to_end, del, dict.update, set(<list>), sorted / list.sort on str. *)
 From Coq Require Import List Bool ZArith String Ascii.
 Import ListNotations.
 Open Scope Z_scope.
